@@ -161,6 +161,14 @@ func (fv *FuncVerifier) call(st *State, instr ssa.Instruction, cc *ssa.CallCommo
 	if c == nil && callee.Origin() != nil {
 		c = fv.db.Funcs[callee.Origin().String()]
 	}
+	if c == nil && clo != nil && len(clo.Bindings) == 0 && len(callee.FreeVars) == 0 && inlineDepth > 0 && fv.db.purePrefixOf(name) != "" {
+		// a plain function passed as a value into a callee that is being executed in place
+		// (matchPrefix(s, 2, isOctal)): executing it in place too is more precise than the "pure
+		// package" assumption, and does not rest on it
+		if r, ok := fv.tryInline(st, instr, callee, args, pos); ok {
+			return r, true
+		}
+	}
 	if c == nil {
 		if pp := fv.db.purePrefixOf(name); pp != "" {
 			fv.enc.assumedUsed["functions of "+pp+" do not modify the tracked state (assumed pure): used "+shortName(name)] = true
@@ -170,7 +178,8 @@ func (fv *FuncVerifier) call(st *State, instr ssa.Instruction, cc *ssa.CallCommo
 			}
 			return r, true
 		}
-		if clo == nil {
+		if clo == nil || (len(clo.Bindings) == 0 && len(callee.FreeVars) == 0) {
+			// (a plain function used as a value captures nothing: it is an ordinary static callee)
 			if r, ok := fv.tryInline(st, instr, callee, args, pos); ok {
 				return r, true
 			}
@@ -180,6 +189,13 @@ func (fv *FuncVerifier) call(st *State, instr ssa.Instruction, cc *ssa.CallCommo
 		st.havocAll()
 		r := fv.freshResult(st, callee.Name(), sig)
 		return r, true
+	}
+	if c.Inline && !c.Assumed && clo == nil {
+		// contract says "inline": the body is executed at the call site (loops unrolled as the
+		// contract's "loop k unroll n" clauses say, with unwinding obligations)
+		if r, ok := fv.tryInlineWith(st, instr, callee, args, pos, c); ok {
+			return r, true
+		}
 	}
 	var pn []string
 	for _, p := range callee.Params {
@@ -279,7 +295,8 @@ func (fv *FuncVerifier) applyContract(st *State, c *FuncContract, name string, p
 			continue
 		}
 		g := fv.safeEvalBool(env, r.E, "pre of "+sn)
-		fv.addOb(st, "pre", fmt.Sprintf("pre:%s#%d.%d", sn, k, i), g, r.Src, pos)
+		preOb := fv.addOb(st, "pre", fmt.Sprintf("pre:%s#%d.%d", sn, k, i), g, r.Src, pos)
+		preOb.PC = append(preOb.PC, revealAxioms(fv.enc, r.Reveal)...)
 		st.assume(g)
 	}
 	if c.NoLocks {
@@ -941,6 +958,10 @@ func (fv *FuncVerifier) invEnv(st *State, li *loopInfo) *Env {
 		if pick != nil {
 			vars[name] = st.cells[pick]
 		}
+	}
+	// the hidden counter of a range-over-int loop
+	if v, ok := vars["rangeint.iter"]; ok {
+		vars["rangeiter"] = v
 	}
 	// range position of string loops
 	for r, p := range st.rangePos {
